@@ -87,7 +87,7 @@ Proof. intros; apply (serve_inv HT HA). Qed.
    direct oracle).  The data part is the oracle's json.dumps text or the error report built around the error text. *)
 Theorem C07_lines_wellformed : forall E evs, env_ok E -> Forall ev_ok evs ->
   Forall frame_ok (out (serve E evs)).
-Proof. intros E evs HE Hev; apply (serve_wellformed E HE eq_refl); exact Hev. Qed.
+Proof. intros E evs HE Hev; apply (serve_wellformed E HE); exact Hev. Qed.
 
 (* nothing leaks into another connection: in a server with several connections the state of connection k
    (buffer, frames sent) is the one it reaches from its own events alone *)
